@@ -143,7 +143,7 @@ def path(ctx, params):
     try:
         if params.get("tol") == "sym":
             ft, gt = ctx.real("ftol"), ctx.real("gtol")
-            ctx.assume(z3.And(ft > 0, ft < gt, gt < 1), check=False)
+            ctx.assume(z3.And(ft >= 0, ft < gt, gt < 1), check=False)
             step = ls.line_search(X0, f0, G0, D, L, U, above_iter, 1e8, is_boxed, sf, SReal(ft), SReal(gt), 0.1, T, -1, None)
         else:
             step = ls.line_search(X0, f0, G0, D, L, U, above_iter, 1e8, is_boxed, sf, 1e-3, 0.9, 0.1, T, -1, None)
@@ -225,5 +225,9 @@ def real_case(params, model):
            dict(type="steep_quadratic", slope=slope, f0=f0, c=0.6),
            dict(type="oscillating", slope=slope, f0=f0),
            dict(type="bump", slope=slope, f0=f0)]
-    return dict(kind="linesearch", x0=x0, d=d, l=l, u=u, iter=params["iter"], T=params["T"],
+    case = dict(kind="linesearch", x0=x0, d=d, l=l, u=u, iter=params["iter"], T=params["T"],
                 is_boxed=all(p == "ff" for p in pat), functions=fns)
+    if params.get("tol") == "sym":
+        case["ftol"] = f(model.get("ftol", "1/1000"))
+        case["gtol"] = f(model.get("gtol", "9/10"))
+    return case
